@@ -57,6 +57,14 @@ func InvokeMethod(ci ssa.CallInstruction) *types.Func {
 func IsCallTo(ci ssa.CallInstruction, targets ...*ssa.Function) bool {
 	f := StaticCallee(ci)
 	if f == nil {
+		// a method value chosen among a few (`f := c.Pause; if unpause { f = c.UnPause }; f()`): the call may be any of them
+		for _, g := range MethodValueCallees(ci) {
+			for _, t := range targets {
+				if t != nil && (g == t || g.Origin() == t) {
+					return true
+				}
+			}
+		}
 		return false
 	}
 	for _, t := range targets {
@@ -322,6 +330,67 @@ func ResultN(call ssa.Value, i int) []ssa.Value {
 		if ex, ok := r.(*ssa.Extract); ok && ex.Index == i {
 			out = append(out, ex)
 		}
+	}
+	return out
+}
+
+// MethodValueCallees resolves a call through a local function value that is (a phi of) bound method values or function
+// literals/functions to the functions it may invoke. Empty when the value comes from anywhere else.
+func MethodValueCallees(ci ssa.CallInstruction) []*ssa.Function {
+	c := ci.Common()
+	if c.IsInvoke() {
+		return nil
+	}
+	var out []*ssa.Function
+	seen := map[ssa.Value]bool{}
+	ok := true
+	var walk func(v ssa.Value)
+	walk = func(v ssa.Value) {
+		if seen[v] || !ok {
+			return
+		}
+		seen[v] = true
+		switch x := v.(type) {
+		case *ssa.Phi:
+			for _, e := range x.Edges {
+				walk(e)
+			}
+		case *ssa.MakeClosure:
+			fn, isFn := x.Fn.(*ssa.Function)
+			if !isFn {
+				ok = false
+				return
+			}
+			if fn.Synthetic != "" && len(fn.Blocks) == 1 {
+				// bound method wrapper: its body is one call of the method
+				for _, in := range fn.Blocks[0].Instrs {
+					if call, isCall := in.(*ssa.Call); isCall {
+						if g := StaticCallee(call); g != nil {
+							out = append(out, g)
+							return
+						}
+					}
+				}
+				ok = false
+				return
+			}
+			out = append(out, fn)
+		case *ssa.Function:
+			out = append(out, x)
+		case *ssa.ChangeType:
+			walk(x.X)
+		default:
+			ok = false
+		}
+	}
+	switch c.Value.(type) {
+	case *ssa.Phi:
+		walk(c.Value)
+	default:
+		return nil
+	}
+	if !ok {
+		return nil
 	}
 	return out
 }
